@@ -256,6 +256,25 @@ def _written(ctx, w):
     return w.kwargs.get(name, w.args[1] if len(w.args) > 1 else None)
 
 
+
+def _half_of_name(name_term, node):
+    """which half a written file is named after: the name must be exactly <prefix>_even.mrc / <prefix>_odd.mrc for every prefix
+    (evaluated on prefixes that end in characters of '.mrc', contain dots and directories)"""
+    halves = set()
+    for prefix in ("ts_017_norm", "out/TS_01.aligned", "stack_mc", "x"):
+        try:
+            got = tm.evaluate(name_term, {"prefix": prefix})
+        except Exception as e:  # noqa
+            raise Unsupported(f"file name of a written half is not a string expression of the prefix ({e})", node)
+        if got == prefix + "_even.mrc":
+            halves.add("even")
+        elif got == prefix + "_odd.mrc":
+            halves.add("odd")
+        else:
+            halves.add(f"{prefix!r} -> {got!r}")
+    return halves.pop() if len(halves) == 1 else sorted(halves)[0]
+
+
 def o153(ctx):
     """split / flip / merge"""
     q = TS + "split_stack_even_odd"
@@ -296,8 +315,21 @@ def o153(ctx):
                 for w in wr:
                     nm = tm.show(to_term(w.arg(0)))
                     nd = _written(ctx, w)
-                    src = evens[0].args[0] if "_even" in nm else odds[0].args[0] if "_odd" in nm else None
-                    if src is None or nd is None or not tm.has_call(to_term(nd), "numpy.stack") and to_term(nd) != to_term(src):
+                    hn = _half_of_name(to_term(w.arg(0)), w.node)
+                    if hn not in ("even", "odd"):
+                        ctx.finding(q, w.node, f"the halves must be written to <prefix>_even.mrc and <prefix>_odd.mrc for every prefix; the name is built "
+                                    f"so that {hn}", w.node, m)
+                        continue
+                    src = evens[0].args[0] if hn == "even" else odds[0].args[0]
+                    # which list the written array was stacked from: by identity of the list object (the two lists have the same generic element)
+                    stacked = {id(e_.extra.get("ret")): e_.args[0] for e_ in it.events if e_.kind == "call" and e_.name in ("numpy.stack", "numpy.array", "numpy.asarray")
+                               and e_.args}
+                    from_list = nd if isinstance(nd, Seq) else stacked.get(id(nd))
+                    born = getattr(from_list, "born", None)
+                    if nd is not None and (born is None or getattr(evens[0].args[0], "born", None) is None
+                                           or getattr(evens[0].args[0], "born", None) == getattr(odds[0].args[0], "born", None)):
+                        raise Unsupported("which half is handed to write_out is not recognised", w.node)
+                    if src is None or nd is None or born != getattr(src, "born", None):
                         ctx.finding(q, w.node, "the even half must be written to <prefix>_even.mrc and the odd half to <prefix>_odd.mrc",
                                     w.node, m)
                 if len(wr) != 2:
@@ -328,7 +360,12 @@ def o153(ctx):
         for w in wr:
             nm = tm.show(to_term(w.arg(0)))
             nd = _written(ctx, w)
-            want = "even" if "_even" in nm else "odd" if "_odd" in nm else None
+            want = _half_of_name(to_term(w.arg(0)), w.node)
+            if want not in ("even", "odd"):
+                ctx.count(1)
+                ctx.finding(q, w.node, f"the halves must be written to <prefix>_even.mrc and <prefix>_odd.mrc for every prefix; the name is built so "
+                            f"that {want}", w.node, m)
+                continue
             ctx.count(1)
             if want is None or nd is None or half(to_term(nd)) != want:
                 ctx.finding(q, w.node, "the even half must be written to <prefix>_even.mrc and the odd half to <prefix>_odd.mrc", w.node, m)
@@ -400,6 +437,35 @@ def o155(ctx):
         ctx.count(1)
         if co is None or not (is_pyconst(co) and pyval(co) == "zyx"):
             ctx.finding(q, "current_order", "the internal order must be recorded as 'zyx'", fn, m)
+        # the stack holds the caller's values as they are: apart from the axis permutation nothing is done to them (no conversion, no
+        # scaling) -- every operation returns values of the array it was given
+        SHAPE_ONLY = (".transpose", ".copy", "numpy.transpose", "numpy.ascontiguousarray", "numpy.array", "numpy.asarray", "numpy.copy", "numpy.expand_dims",
+                      ".reshape", "numpy.reshape", "numpy.atleast_3d", "numpy.swapaxes", ".swapaxes", "numpy.moveaxis")
+
+        def values_kept(x):
+            """does x hold arr's values, re-arranged at most? True / False / None (an operation the rule gives no meaning to)"""
+            if x == sym("arr"):
+                return True
+            if x.op == "ite":
+                a_, b_ = values_kept(x.args[1]), values_kept(x.args[2])
+                return None if None in (a_, b_) else (a_ and b_)
+            if x.op == "call" and x.args[0] in SHAPE_ONLY and len(x.args) >= 2:
+                return values_kept(x.args[1])
+            if x.op == "call" and x.args[0] == "getitem" and len(x.args) == 3 and all(n.op in ("vec", "const", "call") for n in tm.walk(x.args[2])) \
+                    and all(n.args[0] == "slice" for n in tm.walk(x.args[2]) if n.op == "call") and all(tm.cval(n) is None for n in tm.walk(x.args[2]) if n.op == "const"):
+                return values_kept(x.args[1])  # a[None, :, :] and friends
+            if x.op == "call" and x.args[0] in (".astype", "cast", "numpy.float32", "numpy.nan_to_num", "numpy.clip", "numpy.round") or x.op in ("mul", "add", "sub", "div", "narrow", "round"):
+                return False
+            return None
+
+        kept = values_kept(t)
+        ctx.count(1)
+        if kept is not True:
+            if kept is None or not tm.has_sym(t, "arr"):
+                raise Unsupported(f"data held by TiltStack(array) not recognised: {tm.show(t)[:100]}", fn)
+            ctx.finding(q, f"values of an array given in {order} order", "TiltStack(array) must hold the array's values unchanged (axes permuted at "
+                        f"most); it holds {tm.show(t)[:140]}: the element type or the values change on the way in, so a zero-dose filter, a crop "
+                        "or a sort no longer returns the caller's numbers", fn, m)
     it = Interp(ctx.prog, assume=assume_map({"not isinstance(tilt_stack, np.ndarray)": True, "self.data.shape == 2": False}), no_inline=("cryomap.read",))
     me = Obj("tiltstack.TiltStack", {})
     it.run(q, [K("stack.mrc")], {"input_order": K("xyz"), "output_order": P("output_order")}, self_obj=me)
